@@ -35,6 +35,7 @@ class Graph:
         self.repo = repo
         self.mir = facts.mir
         self._src = {}
+        self._names = {}
         # trait method -> local impl bodies
         self.trait_impls = collections.defaultdict(list)
         for it in facts.items_all:
@@ -47,7 +48,64 @@ class Graph:
             self.edges[path], self.ext[path] = self._scan(m)
 
     # -------------------------------------------------------------- source text
-    def snippet(self, sp, limit=90):
+    def local_names(self, body_path):
+        """Names of the local variables / parameters of the HIR owner of a MIR body (closures and coroutine
+        bodies live inside their enclosing fn's HIR).  Used to alpha-normalise labels: a key must not change
+        when a local is renamed."""
+        if body_path in self._names:
+            return self._names[body_path]
+        owner = body_path
+        while owner not in self.facts.hir and '::{' in owner:
+            owner = owner.rsplit('::{', 1)[0]
+        names = set()
+        h = self.facts.hir.get(owner)
+        if h is not None:
+            def pats(x):
+                if isinstance(x, dict):
+                    if x.get('k') == 'Bind' and x.get('name'):
+                        names.add(x['name'])
+                    for v in x.values():
+                        pats(v)
+                elif isinstance(x, list):
+                    for v in x:
+                        pats(v)
+            pats(h['params'])
+            pats(h['body'])
+        names.discard('self')
+        self._names[body_path] = names
+        return names
+
+    def label(self, body_path, sp, limit=90):
+        """Source text of the construct with every local variable name replaced by `_` (field names, method
+        names, paths, macro names and literals are kept), whitespace removed."""
+        t = self.snippet(sp, limit=400, squeeze=False)
+        names = self.local_names(body_path)
+        if names:
+            # string literals are left alone
+            parts = re.split(r'("(?:[^"\\]|\\.)*")', t)
+            out = []
+            for i, part in enumerate(parts):
+                if i % 2 == 1:
+                    out.append(part)
+                else:
+                    tt = part
+                    def rep2(m, tt=tt):
+                        w = m.group(0)
+                        if w not in names:
+                            return w
+                        before = tt[:m.start()].rstrip()
+                        after = tt[m.end():].lstrip()
+                        if before.endswith('.') and not before.endswith('..'):
+                            return w
+                        if before.endswith('::') or after.startswith('::') or after.startswith('!'):
+                            return w
+                        return '_'
+                    out.append(re.sub(r'\b[A-Za-z_][A-Za-z0-9_]*\b', rep2, part))
+            t = ''.join(out)
+        t = re.sub(r'\s+', '', t)
+        return t[:limit]
+
+    def snippet(self, sp, limit=90, squeeze=True):
         if not sp or sp[1] is None:
             return ''
         fn = sp[0]
@@ -66,7 +124,8 @@ class Graph:
             t = lines[l1 - 1][c1 - 1:c2 - 1]
         else:
             t = lines[l1 - 1][c1 - 1:] + ' ' + ' '.join(lines[l1:l2 - 1]) + ' ' + lines[l2 - 1][:c2 - 1]
-        t = re.sub(r'\s+', '', t)
+        if squeeze:
+            t = re.sub(r'\s+', '', t)
         return t[:limit]
 
     # -------------------------------------------------------------- per-body scan
@@ -154,13 +213,13 @@ class Graph:
                         continue
                     if kind in ('Overflow(Shl)', 'Overflow(Shr)') and shift_const_ok(t.get('operands', ''), m.get('local_tys', [])):
                         continue      # shift by a literal smaller than the operand width cannot overflow
-                    out.append(Source(p, 'assert', kind, self.snippet(sp), where, macro))
+                    out.append(Source(p, 'assert', kind, self.label(p, sp), where, macro))
                 elif t['k'] in ('Call', 'TailCall'):
                     c = t.get('inst') or t.get('callee')
                     if t.get('diverges'):
-                        lab = (macro or '') + ':' + self.snippet(sp)
+                        lab = (macro or '') + ':' + self.label(p, sp)
                         if macro and macro.startswith('desugar'):
-                            lab = self.snippet(sp)
+                            lab = self.label(p, sp)
                         out.append(Source(p, 'diverging-call', short(c), lab, where, macro))
                         continue
                     if c in self.mir:
@@ -168,7 +227,10 @@ class Graph:
                     cls = self.classify(c, t)
                     ext_seen[c] = cls
                     if cls[0] == 'may-panic':
-                        out.append(Source(p, 'may-panic-call', short(c), self.snippet(t.get('fn_sp') or sp), where, macro))
+                        lab = self.label(p, t.get('fn_sp') or sp)
+                        if '{' in lab:
+                            lab = lab[:lab.index('{') + 1]      # a closure / async block argument: its text is not part of the key
+                        out.append(Source(p, 'may-panic-call', short(c), lab, where, macro))
         return out, ext_seen
 
     def classify(self, c, t):
